@@ -30,7 +30,10 @@ def _grammar_terminals(root):
     for fn in t.body:
         if isinstance(fn, ast.FunctionDef) and fn.name.startswith("rrel_"):
             for n in ast.walk(fn):
-                if isinstance(n, ast.Call) and getattr(n.func, "id", "") in ("_", "RegExMatch") and n.args and isinstance(n.args[0], ast.Constant): G |= _regex_literals(n.args[0].value)
+                if isinstance(n, ast.Call) and getattr(n.func, "id", "") in ("_", "RegExMatch") and n.args:
+                    pat_ = n.args[0].value if isinstance(n.args[0], ast.Constant) else const_str(n.args[0], t)
+                    if not isinstance(pat_, str): raise AnalysisError("%s: the regex of a terminal is not a constant string: %s" % (fn.name, ast.unparse(n)[:60]))
+                    G |= _regex_literals(pat_)
             regex_args = {id(n.args[0]) for n in ast.walk(fn) if isinstance(n, ast.Call) and getattr(n.func, "id", "") in ("_", "RegExMatch") and n.args}
             for n in ast.walk(fn):
                 if isinstance(n, ast.Constant) and isinstance(n.value, str) and id(n) not in regex_args and n.value: G.add(n.value)
